@@ -208,6 +208,15 @@ class Turns:
 # generated user code: emitters with self-describing payloads
 # ------------------------------------------------------------------------------------------------
 
+def _fs(eid):
+    """a file-name fragment for an emitter id, injective (two ids that differ only in `.` / `>` stay apart)"""
+    return re.sub(r"[^A-Za-z0-9]", lambda m: "_%02x" % ord(m.group()), eid)
+
+
+# locations are written `top>sub>test` (`>` between the NAMES of the path: a name may itself contain dots)
+_SEP = ">"
+
+
 def payload(eid, inst, step, seq, kind):
     """self-describing text of one record: emitter (= FULL PATH of its test / hook, `~cK` per lcc.Thread), step instance,
     the description of the step current in the emitting thread (percent-encoded: it may be empty, blank, multi-line, long),
@@ -296,21 +305,21 @@ class Emitter:
         return p
 
     def _source(self, p):
-        path = os.path.join(self.run.srcdir, "src-%s-%d.txt" % (re.sub(r"[^A-Za-z0-9]", "_", self.eid), self.seq))
+        path = os.path.join(self.run.srcdir, "src-%s-%d.txt" % (_fs(self.eid), self.seq))
         with open(path, "w") as fh:
             fh.write(p)
         return path
 
     def _scratch(self, image=False):
         """the emitter's own scratch / capture file, REUSED for every capture (rewritten in place)"""
-        return os.path.join(self.run.srcdir, "scratch-%s.%s" % (re.sub(r"[^A-Za-z0-9]", "_", self.eid), "png" if image else "txt"))
+        return os.path.join(self.run.srcdir, "scratch-%s.%s" % (_fs(self.eid), "png" if image else "txt"))
 
     def _spell(self, src, via):
         """how the test names its file: absolute, relative to the working directory, through a symbolic link"""
         if via == "rel":
             return os.path.relpath(src)
         if via in ("symlink-rel", "symlink-abs"):
-            link = os.path.join(self.run.srcdir, "lnk-%s-%d.txt" % (re.sub(r"[^A-Za-z0-9]", "_", self.eid), self.seq))
+            link = os.path.join(self.run.srcdir, "lnk-%s-%d.txt" % (_fs(self.eid), self.seq))
             os.symlink(os.path.basename(src) if via == "symlink-rel" else src, link)
             return link
         return src
@@ -685,6 +694,24 @@ def gen_forest(rng):
     return "random", level(0, [6])
 
 
+def _dotted_names(rng, suites, heavy, p=0.22):
+    """names with dots in them (`@lcc.test(name="v2.status")`, `@lcc.suite(name="api.v2")`, parametrized naming schemes fed with
+    versions / addresses) whose halves SPELL THE PATH OF A SIBLING: next to a sub-suite `beta` holding a test `probe`, a test
+    named `beta.probe`; next to a top-level suite `alpha` holding a sub-suite `beta`, a top-level suite named `alpha.beta`
+    holding tests with the same names.  A location is the list of the ancestors' names: the nodes stay apart."""
+    for _, sd in list(walk_suites(suites)):
+        for sub in sd.get("subs") or []:
+            for t in sub["tests"]:
+                name = sub["name"] + "." + t["name"]
+                if rng.random() < p and name not in [x["name"] for x in sd["tests"]]:
+                    sd["tests"].append(_gen_test(rng, name, heavy))
+    for sd in list(suites):
+        for sub in sd.get("subs") or []:
+            name = sd["name"] + "." + sub["name"]
+            if sub["tests"] and rng.random() < p / 2 and name not in [x["name"] for x in suites]:
+                suites.append(dict(_sd(name), tests=[_gen_test(rng, t["name"], heavy) for t in sub["tests"][:2]]))
+
+
 def _gen_test(rng, name, heavy):
     nthr = rng.choice([0, 0, 1, 1, 2, 3])
     return {"name": name, "main": gen_script(rng, nthr, rng.randint(2, 7), heavy),
@@ -715,6 +742,7 @@ def gen_run_case(rng, line=None):
     suites = prune_suites(forest)
     if not suites:
         suites = [dict(forest[0], tests=[_gen_test(rng, "exchange", heavy)], subs=[])]
+    _dotted_names(rng, suites, heavy)
     nodes = [sd for _, sd in walk_suites(suites)]
     # hooks that log at the suite-setup / suite-teardown locations while tests of other suites run; a setup hook
     # may start an lcc.Thread itself (Thread.__init__ then fires the held SuiteSetupStart event)
@@ -818,7 +846,7 @@ def real_run(case):
     srcdir = tempfile.mkdtemp(prefix="lccverif-c06src-")
     run = _Run(turns, srcdir)
     def build(sd, si, prefix):
-        spath = ".".join(prefix + [sd["name"]])
+        spath = _SEP.join(prefix + [sd["name"]])
         suite = Suite(None, sd["name"], "S:" + spath)
         suite.rank = si
         if sd.get("setup"):
@@ -831,7 +859,7 @@ def real_run(case):
             suite.add_hook("teardown_suite", teardown_suite)
         for ti, td in enumerate(sd["tests"]):
             # the emitter's id is the FULL PATH of its test: same-named tests of same-named suites stay apart
-            path = spath + "." + td["name"]
+            path = spath + _SEP + td["name"]
 
             def mk_body(td, path):
                 def body():
@@ -938,11 +966,11 @@ def iter_results(report):
     def walk(s, prefix):
         path = prefix + [s["md"]["name"]]
         if s.get("setup"):
-            yield ".".join(path) + "/setup", s["setup"]
+            yield _SEP.join(path) + "/setup", s["setup"]
         for t in s["tests"]:
-            yield ".".join(path + [t["md"]["name"]]), t["res"]
+            yield _SEP.join(path + [t["md"]["name"]]), t["res"]
         if s.get("teardown"):
-            yield ".".join(path) + "/teardown", s["teardown"]
+            yield _SEP.join(path) + "/teardown", s["teardown"]
         for x in s["suites"]:
             yield from walk(x, path)
     for s in report["suites"]:
@@ -980,9 +1008,9 @@ def expected_results(case, obs):
     test whose body ran, every suite hook that ran (an emitter registered under that path)"""
     out = set()
     for path, sd in walk_suites(case["suites"]):
-        sp = ".".join(path)
+        sp = _SEP.join(path)
         for t in sd["tests"]:
-            out.add(sp + "." + t["name"])
+            out.add(sp + _SEP + t["name"])
         for hook in ("setup", "teardown"):
             if sd.get(hook):
                 out.add(sp + "/" + hook)
@@ -1134,7 +1162,7 @@ def oracle_run(case, obs):
         pp = parse_payload(txt) if txt else None
         if pp is not None:
             loc = ev["loc"]
-            here = ".".join(loc["path"]) + ("/setup" if loc["k"] == "setup" else "/teardown" if loc["k"] == "teardown" else "") \
+            here = _SEP.join(loc["path"]) + ("/setup" if loc["k"] == "setup" else "/teardown" if loc["k"] == "teardown" else "") \
                 if "path" in loc else "<%s>" % loc["k"]
             if here != owner_location(pp["e"]):
                 fails.append(F("C06/event-foreign-location", f"{txt} fired with location {here}"))
@@ -1190,6 +1218,24 @@ class RunStream(C.Stream):
     line_share_quick = 0.15
     line_share_thorough = 0.5
     corpus = [
+        # a test named `v2.status` in suite `api` next to the sub-suite `v2` holding a test `status` (the halves of the dotted
+        # name spell the sibling's path), both running at the same time, each with an lcc.Thread, over two steps
+        {"n": 2, "line": None, "sched": {"strategy": "rr", "width": 2, "seed": 4}, "console": {"width": 80},
+         "suites": [{"name": "api", "setup": None, "teardown": None, "tests": [
+             {"name": "v2.status", "main": [["log", "info"], ["spawn", 0], ["step"], ["log", "info"], ["att", "content"], ["join", 0], ["check", True]],
+              "threads": [[["log", "info"], ["step"], ["att", "content"], ["log", "warn"]]]},
+             {"name": "ping", "main": [["log", "info"]], "threads": []}],
+             "subs": [{"name": "v2", "setup": None, "teardown": None, "subs": [], "tests": [
+                 {"name": "status", "main": [["log", "info"], ["spawn", 0], ["step"], ["check", True], ["join", 0], ["log", "info"]],
+                  "threads": [[["log", "info"], ["att", "content"]]]}]}]}]},
+        # ... and a top-level suite named `api.v2` (same test name) next to them, four workers
+        {"n": 4, "line": None, "sched": {"strategy": "random", "width": 2, "seed": 9}, "console": None,
+         "suites": [{"name": "api", "setup": None, "teardown": None, "tests": [
+             {"name": "v2.status", "main": [["log", "info"], ["step"], ["log", "info"]], "threads": []}],
+             "subs": [{"name": "v2", "setup": None, "teardown": None, "subs": [], "tests": [
+                 {"name": "status", "main": [["log", "info"], ["step"], ["att", "content"]], "threads": []}]}]},
+            {"name": "api.v2", "setup": None, "teardown": None, "subs": [], "tests": [
+                {"name": "status", "main": [["log", "info"], ["spawn", 0], ["log", "info"], ["join", 0]], "threads": [[["log", "info"]]]}]}]},
         # two tests at once, each with an lcc.Thread whose first log comes while the parent's step is current
         {"n": 2, "line": None, "sched": {"strategy": "rr", "width": 1, "seed": 1},
          "suites": [{"name": "s0", "setup": None, "tests": [
@@ -1464,6 +1510,16 @@ def tree_features(suites):
         f.append("same-named-tests")
     if any(t["name"] in tops or t["name"] in levels for _, sd in nodes for t in sd["tests"]):
         f.append("test-named-like-a-suite")
+    dotted_tests = {".".join(p + (t["name"],)): 0 for p, sd in nodes for t in sd["tests"]}
+    for p, sd in nodes:
+        for t in sd["tests"]:
+            dotted_tests[".".join(p + (t["name"],))] += 1
+            if "." in t["name"]:
+                f.append("test-name-dotted")
+    if any("." in p[-1] for p, _ in nodes):
+        f.append("suite-name-dotted")
+    if any(v > 1 for v in dotted_tests.values()):
+        f.append("dotted-name-spells-the-path-of-another-test")
     return f
 
 
